@@ -32,6 +32,9 @@ LAMBDAS = {
     'true': ('v => True', lambda v: True),
     'add': ('(a, b) => a + b', lambda a, b: a + b),
     'len': ('v => len(v)', lambda v: len(v)),
+    # bodies that compute with their argument through non-mutating operators only (and / or / if-else hand an operand on as it is)
+    'orplus': ('v => (v or [0]) + [1]', lambda v: (v or [0]) + [1]),
+    'ifplus': ('(a, b) => ((a if a else a) + a) and a', lambda a, b=None: ((a if a else a) + a) and a),
 }
 
 
@@ -245,6 +248,42 @@ def big_cases(res):
                                'expected': f'{n} elements', 'observed': f'{len(big)} elements'})
 
 
+def shadowed_inner(res, shp):
+    """F(B(a0)) in the three syntaxes where B - the name of a builtin that normally returns a NEW list - is bound by the program (a lambda) or
+    by the host (a function) to something that hands its argument on: F still may not change the host object."""
+    api = snapshot.api()
+    outer = sorted(k for k in api.FUNCTIONS if k not in MUTATORS and not k.startswith('__'))
+    inner = sorted(k for k in api.FUNCTIONS if k in BUILDS_NEW or k in ('keys', 'values', 'items', 'list', 'filter', 'map', 'sorted', 'reversed'))
+    for shape in ('nums', 'strs', 'nested', 'dict', 'ndict', 'long-desc', 'rows'):
+        for B in inner:
+            for F in outer:
+                if F == B:
+                    continue
+                for how in ('program', 'host'):
+                    for text in (f'{F}({B}(a0))', f'{B}(a0) | {F}', f'{B}(a0).{F}()', f'a0.{B}() | {F}'):
+                        names = {'a0': shp[shape]()}
+                        host = [names['a0']]
+                        if shape in ('ndict', 'rows'):
+                            names['pick'] = (lambda d: d['l']) if shape == 'ndict' else (lambda d: d[0])
+                        prog = text
+                        if how == 'program':
+                            prog = f'{B} = v => v; ' + text
+                        else:
+                            names[B] = lambda v, *a: v
+                        before = snap(host)
+                        try:
+                            parser().eval(prog, names, max_ops_evaluated=100000)
+                        except Exception:  # noqa
+                            pass
+                        res.count('eval_calls')
+                        res.count('shadowed_inner_calls')
+                        after = snap(host)
+                        if before != after:
+                            res.violation(f'mutates:{F}:inner-call-shadowed:{how}', f'a host object was modified by {F} applied to the result of a call of a '
+                                          f'{how}-bound function that carries the name of a builtin', {'function': F, 'args': [shape], 'mode': 'eval', 'program': prog,
+                                                                                                    'host_binds': B if how == 'host' else None, 'expected': before, 'observed': after})
+
+
 def work(task):
     res = runner.Result()
     api = snapshot.api()
@@ -255,6 +294,9 @@ def work(task):
     kind = task[0]
     if kind == 'big':
         big_cases(res)
+        return res
+    if kind == 'shadowed-inner':
+        shadowed_inner(res, shp)
         return res
     _, fname, arity, mode = task
     ABORT_ALL[0] = mode == 'full'
@@ -285,7 +327,7 @@ def main(tier, seed, t0):
     b = BOUNDS[tier]
     api = snapshot.api()
     fns = sorted(k for k in api.FUNCTIONS if k not in MUTATORS)
-    tasks = [('big',)]
+    tasks = [('big',), ('shadowed-inner',)]
     for fname in fns:
         for arity in (1, 2, 3):
             tasks.append(('fn', fname, arity, b['ARITY3']))
